@@ -2,13 +2,14 @@
 # usage: tools/try_seeded.sh <patch.diff> <ID> [<ID> ...]   -- applies the patch to /repo, runs quick checks, reverts.
 set -u
 patch="$1"; shift
-cd /repo || exit 2
+REPO=${RSV_REPO:-/repo}; VERIF=${RSV_VERIF:-/verif}
+cd $REPO || exit 2
 if ! git diff --quiet; then echo "repo dirty, refusing"; exit 2; fi
-trap 'git -C /repo checkout -- . ; git -C /repo clean -fdq -- src rsactor-derive tests 2>/dev/null' EXIT
+trap 'git -C $REPO checkout -- . ; git -C $REPO clean -fdq -- src rsactor-derive tests 2>/dev/null' EXIT
 if ! git apply "$patch" 2>/tmp/apply.err; then
   if ! git apply -3 "$patch" 2>>/tmp/apply.err; then echo "PATCH DOES NOT APPLY: $(head -3 /tmp/apply.err)"; exit 3; fi
 fi
-cd /verif
+cd $VERIF
 for id in "$@"; do
   out=$(VERIF_TIER=${TIER:-quick} ./check "$id" --tier ${TIER:-quick} 2>&1); rc=$?
   nv=$(echo "$out" | grep -c '^VIOLATION')
